@@ -428,7 +428,7 @@ def run(ctx):
             cases.append(tup(natlit(ns), natlit(nc), f1(gamma), flist2(Af), flist2(Bf), flist2(Qf), flist2(Rf), flist2(Nf),
                              zl(scode), flist2(Xl) if Xl else "(@nil (list float))"))
             meta.append(dict(inp, gamma=gamma))
-            if ns <= 2 and nc <= 2 and its <= 7 and status == "ok" and len(qcases) < (30 if thorough else 12):
+            if ns <= 2 and nc <= 2 and its <= (6 if ns == 1 else 4) and status == "ok" and len(qcases) < (30 if thorough else 12):
                 qcases.append(tup(natlit(ns), natlit(nc), qlit(frac(gamma)), qlist2(A), qlist2(B), qlist2(Q), qlist2(R), qlist2(N),
                                   qlist2([[frac(x) for x in row] for row in Xl])))
                 qmeta.append(dict(inp, gamma=gamma))
